@@ -12,6 +12,8 @@ FAMS = {"fam:global": 0.08, "fam:sequence": 0.08, "fam:localp": 0.08, "fam:wavel
 PROPS = {
     "C01": grid_prop(30000, 1200000, floors=dict(FAMS, **{"hist:construction": 0.05, "hist:refined": 0.2, "lp:d>=3": 0.01, "wave:o3": 0.02})),
     "C04": grid_prop(12000, 500000, floors=dict(FAMS, **{"state:pending": 0.05, "state:merged": 0.02, "state:constructing": 0.03, "state:coeff-overwritten": 0.05, "batch>=32": 0.3, "x:support-boundary": 0.1})),
+    "C07": grid_prop(15000, 600000, floors=dict(FAMS, **{"limits": 0.2, "scale:vector": 0.02, "scale:raw": 0.02, "classic:tol-gap": 0.05, "classic:tol0": 0.03, "merge": 0.03,
+                     "strategy:classic": 0.01, "strategy:parents": 0.01, "strategy:direction": 0.01, "strategy:fds": 0.01, "strategy:stable": 0.01})),
     "C06": grid_prop(40000, 1500000,
                      floors={"fam:global": 0.08, "fam:sequence": 0.08, "fam:localp": 0.08, "fam:wavelet": 0.08, "fam:fourier": 0.08,
                              "fmt:ascii": 0.35, "sec:pending": 0.04, "sec:construction": 0.04, "sec:transform": 0.04, "sec:limits": 0.04}),
@@ -24,6 +26,11 @@ NOT_APPLICABLE = {}
 
 _TB = "Trusted base: the harness (decoder, reference models, oracles) and the sanitizer runtimes; generation is random, so absence of violations is evidence for the explored distribution only (reported in the evidence file)."
 META = {
+    "C07": dict(technique="stateful property-based testing (rapidcheck, structure-aware byte decoder) against a reference model (coordinate sets + coordinate->value dictionary) and an independent re-evaluation of the classic surplus rule; ASan/UBSan",
+                text="Generated sequences of load/reload/refine/update/merge/clear calls on all grid families are executed against the library and a reference model; after every step the loaded/needed sets must be duplicate-free, disjoint and follow the documented set algebra, "
+                     "every value must stay attached (bitwise) to the coordinates it was supplied for, refinement/update must leave loaded points, values and surrogate bitwise unchanged, and classic surplus refinement of local polynomial and wavelet grids must propose exactly "
+                     "the admissible children (coordinate-based hierarchy model, level limits, scale correction through both overloads, tolerances placed in gaps between criteria). Exploration.",
+                note=_TB + " For piece-wise constant (order 0) local polynomials the children are taken from the library's RuleLocal index functions."),
     "C04": dict(technique="property-based testing (rapidcheck, structure-aware byte decoder): differential oracles between the documented routes to the same quantity, poisoned output buffers, ASan/UBSan",
                 text="For generated grids and histories (pending/merged refinement, partial construction, coefficient overwrite) and generated batches of points (nodes, support boundaries, block-size boundaries) eight documented identities are checked: "
                      "evaluate vs weights x values, vs coefficients x hierarchical functions, vs evaluateBatch/evaluateFast; sparse vs dense hierarchical matrix; zero outside the reported support; integrate vs quadrature and basis integrals; "
